@@ -149,6 +149,7 @@ Definition is_not (p : phase) : bool := match p with PNot => true | _ => false e
 Section Group.
   Variables (r log : Z) (k : nat) (sq md uid : nat -> Z).
   Hypothesis Hk : (2 <= k)%nat.
+  Hypothesis Hk255 : (k <= 255)%nat.           (* sar_total_segments is a single octet *)
   Hypothesis sq_inj : forall i j, (i < k)%nat -> (j < k)%nat -> sq i = sq j -> i = j.
   Hypothesis md_inj : forall i j, (i < k)%nat -> (j < k)%nat -> md i = md j -> i = j.
 
@@ -676,13 +677,13 @@ End Group.
    after its response), every receipt but the last yields the placeholder and the last one yields
    exactly one receipt event carrying the message's identity *)
 Theorem segmented_receipts r log k sq md uid gs :
-  (2 <= k)%nat ->
+  (2 <= k <= 255)%nat ->
   (forall i j, (i < k)%nat -> (j < k)%nat -> sq i = sq j -> i = j) ->
   (forall i j, (i < k)%nat -> (j < k)%nat -> md i = md j -> i = j) ->
   valid k (fun _ => PNot) None gs ->
   Forall2 agrees (spec_outs log k (fun _ => PNot) None gs) (hrun_each hinit (map (conc r log k sq md uid) gs)).
 Proof.
-  intros Hk Hs Hm Hv. apply (group_run r log k sq md uid Hk Hs Hm gs hinit _ _ (GI_init r log k sq md uid Hk)); [intros _ j _; reflexivity|exact Hv].
+  intros [Hk Hk2] Hs Hm Hv. apply (group_run r log k sq md uid Hk Hk2 Hs Hm gs hinit _ _ (GI_init r log k sq md uid Hk Hk2)); [intros _ j _; reflexivity|exact Hv].
 Qed.
 
 (* the receipt finally handed over is a failing one as soon as any segment's receipt failed *)
